@@ -73,6 +73,11 @@ def gen_lex(rng, size):
             ss['relations'].append(r)
             if rng.random() < 0.15:
                 ss['relations'].append(dict(r))
+        if rng.random() < 0.3:
+            # a members attribute (WN-LMF >= 1.1): it only ranks senses; whether a synset is empty is decided by the senses'
+            # synset attributes, whatever this list names
+            ss['members'] = rng.sample(sense_ids, min(len(sense_ids), rng.choice([1, 2]))) if sense_ids and rng.random() < 0.8 \
+                else ['no-such-sense']
         synsets.append(ss)
     # sometimes make relations reciprocal so that W404 has misses and hits
     frames = []
